@@ -349,7 +349,7 @@ def decode_inputs(inputs):
         v = iv["val"]
         if k == "i" and v >= 1 << 63:
             v -= 1 << 64
-        parts.append({"p": "bool", "i": "int", "c": "choice", "f": "f64bits", "m": "order", "u": "u32", "r": "rune", "e": "env"}[k] + "=" + str(v))
+        parts.append({"p": "bool", "i": "int", "c": "choice", "f": "f64bits", "m": "order", "u": "u32", "r": "rune", "e": "env", "s": "sched"}[k] + "=" + str(v))
     flush()
     return " ".join(parts)
 
@@ -451,7 +451,7 @@ def run_check(pid, tier):
             # translator validation: replay passing witnesses natively and compare observations
             if binp:
                 for wi, w in enumerate(res["witnesses"] or []):
-                    if any(iv["kind"] in ("m", "e") for iv in (w["inputs"] or [])):
+                    if any(iv["kind"] in ("m", "e", "s") for iv in (w["inputs"] or [])):
                         continue
                     tape = os.path.join(tmp, "w_%d_%d.tape" % (id(j) % 100000, wi))
                     write_tape(tape, j.harness, w["args"], w["inputs"])
@@ -486,7 +486,7 @@ def run_check(pid, tier):
                 vi, v = item
                 tape = os.path.join(tmp, "v_%d_%d.tape" % (id(j) % 100000, vi))
                 write_tape(tape, j.harness, v["args"], v["inputs"])
-                order = any(iv["kind"] == "m" for iv in (v["inputs"] or []))
+                order = any(iv["kind"] in ("m", "s") for iv in (v["inputs"] or []))
                 confirmed, nr = False, None
                 if binp:
                     if v["kind"] == "race":
@@ -526,6 +526,7 @@ def run_check(pid, tier):
         exit_code = 0
         nviol = 0
         rep_dir = os.path.join(ROOT, "replay", pid)
+        shutil.rmtree(rep_dir, ignore_errors=True)  # replay files of an earlier run are stale
         lines = []
         for j, v, nr in violations:
             k = match_known(known, pid, j, v)
@@ -565,7 +566,7 @@ def run_check(pid, tier):
               "assumptions": spec.get("assumptions", []) + checks.COMMON_ASSUMPTIONS,
               "wall_s": round(time.time() - t0, 2), "violations": nviol}
         os.makedirs(os.path.join(ROOT, "evidence"), exist_ok=True)
-        if not only:
+        if not only and not os.environ.get("VERIF_NO_EVIDENCE"):  # (seed runs on a changed tree leave the committed evidence alone)
             json.dump(ev, open(os.path.join(ROOT, "evidence", pid + ".json"), "w"), indent=1)
         log("%s %s: paths=%d queries=%d validated=%d violations=%d known=%d wall=%.1fs exit=%d" % (
             pid, tier, cov["states"], cov["queries"], cov["traces_validated_against_impl"], nviol, len(known_hit), time.time() - t0, exit_code))
@@ -601,7 +602,19 @@ def setup():
         res = run_gosym(Job("parse", "H_validFile", "", workers=1), ov, tmp)
         if res["violations"] or res["paths"] != 1:
             raise MachineryError("engine smoke test failed")
-        sys.stderr.write("race tracker self test ok\n")
+        res = run_gosym(Job("parse", "H_selectSelftest", "0..3,0..3,0..1", workers=4), ov, tmp)
+        if res["violations"] or res["unsupported"] or res["paths"] < 32:
+            raise MachineryError("select model self test failed: %s" % (res["violations"] or res.get("unsupported_reasons")))
+        binp = native_binary("parse", ov, tmp)
+        for w in (res.get("witnesses") or [])[:40]:
+            if any(iv["kind"] == "s" for iv in (w["inputs"] or [])):
+                continue
+            tape = os.path.join(tmp, "st.tape")
+            write_tape(tape, "H_selectSelftest", w["args"], w["inputs"])
+            nr = native_run(binp, tape, timeout=8.0)
+            if nr["status"] != "done":
+                raise MachineryError("select model self test: native run disagrees: %s %s" % (nr["status"], nr["msg"]))
+        sys.stderr.write("race tracker and select model self tests ok\n")
     finally:
         shutil.rmtree(tmp, ignore_errors=True)
     return 0
